@@ -234,7 +234,7 @@ pub fn live_node_count() -> usize {
 ///   `window` and `document` are cleared.
 pub fn reset_document() {
     let doc = document();
-    let doc_obj = doc.as_ref().as_object().unwrap().clone();
+    let doc_obj = doc.as_object().unwrap().clone();
     // Tear down all nodes. Collect what is dropped and drop it after all borrows are released.
     let mut garbage: Vec<NodeInner> = Vec::new();
     let all = ALL_NODES.with(|all| std::mem::take(&mut *all.borrow_mut()));
@@ -305,15 +305,6 @@ pub fn parent(node: &Node) -> Option<Node> {
 
 pub fn children(node: &Node) -> Vec<Node> {
     data(node).inner.borrow().children.clone()
-}
-
-pub(crate) fn index_in_parent(parent: &Node, child: &Node) -> Option<usize> {
-    data(parent)
-        .inner
-        .borrow()
-        .children
-        .iter()
-        .position(|c| c == child)
 }
 
 pub fn next_sibling(node: &Node) -> Option<Node> {
